@@ -22,7 +22,8 @@ RULE = ("cases: nn op/layer/loss (functional and module forms) x full geometry d
         " Also: memory layouts, magnitudes, batch-norm data far from its spread (float64), rank-5 batch-norm input, long batches with narrow label dtypes, softmax/cross-entropy rows at far-apart levels, Neuron form."
         " Round 4: pooling over -inf/+inf/lowest-finite values next to padding (exact), float16 data of magnitude 1e3-6e4 (window sum outside the float16 range, mean inside), modules used before on another rank."
         " Round 5: BCE probabilities 1e-40 .. 5e-324 (positive, below exp(-100))."
-        " Round 6: activations at +-inf (limits, never NaN).")
+        " Round 6: activations at +-inf (limits, never NaN)."
+        " Round 7: NaN through the activations; loss modules whose .reduction is assigned after construction (run-time built strings).")
 ASSUMPTIONS = ["reference models transcribe the PyTorch documentation formulas (cross-correlation, -inf padded "
                "max-pool, zero-padded average counted in the divisor, channel-major unfold rows, scatter-add fold, "
                "biased batch variance / running statistics)",
